@@ -60,6 +60,29 @@ pub fn c04(ctx: &mut Ctx) {
     let names = scalar_names(&real.names());
     let dn = Sweep { names, alpha: dense, reduced: Alpha::tiny(), cap_per_instr: 200_000, missing: false, only_missing: false, populated_too: false, oracle: Oracle::Judge };
     sweep::run(ctx, &mut real, &dn);
+    // very deep stacks (a result pushed onto a stack that already holds 2^8 / 2^16 items, operands taken from one):
+    // every scalar stack holds D items, the top ones are ordinary operands
+    for d in [255usize, 256, 257, 65_535, 65_536, 65_537] {
+        let mut base = M::default();
+        base.b = (0..d).map(|k| k % 3 == 0).collect();
+        base.i = (0..d).map(|k| if k < 4 { [7, 2, -3, 5][k] } else { k as i32 }).collect();
+        base.f = (0..d).map(|k| if k < 4 { [2.5, 0.5, -1.5, 4.0][k] } else { k as f32 }).collect();
+        base.n = (0..d).map(|k| format!("n{}", k)).collect();
+        base.c = vec![Tree::I(1)];
+        for name in scalar_names(&real.names()) {
+            let id = match ctx.take() {
+                Some(id) => id,
+                None => continue,
+            };
+            ctx.transitions += 1;
+            ctx.states += 1;
+            let out = step_once(&mut real, &with_instr(&base, &name));
+            let v = crate::refmodel::judge(&name, &base, &out);
+            let okey = format!("deep{}|{}|{}", d, name, crate::core::h64(&out.key()));
+            ctx.nontrivial_mark(&okey);
+            ctx.record(id, &okey, v, || format!("{} with {} items on every scalar stack", name, d));
+        }
+    }
     let names = scalar_names(&real.names());
     let lg = Sweep { names, alpha: Alpha::large(), reduced: Alpha::large_reduced(), cap_per_instr: 20_000, missing: false, only_missing: false, populated_too: false, oracle: Oracle::Judge };
     sweep::run(ctx, &mut real, &lg);
